@@ -44,10 +44,15 @@ def check(ctx, src):
     isn = rd.func("isnormalizedspace")
     ctx.check(isn is not None and norm(isn.body[-1]) == "return bool(_whitespace.match(s))", "WS-CLASS", f"{RD}|isnormalizedspace", "isnormalizedspace no longer tests the whitespace regex", RD, 0, detail="bool(_whitespace.match(s))")
     ri = rq.methods["read_ident"][1]
-    stop = pyq.contains(ri, lambda n: isinstance(n, ast.If) and isinstance(n.body[0], ast.Break))
-    ctx.check(stop is not None and norm(stop.test) == "not nc or nc in self.ends_ident or isnormalizedspace(nc)", "WS-CLASS", f"{RD}|Reader.read_ident|terminator",
-              f"identifiers end under `{norm(stop.test) if stop else None}`; every whitespace character and every ends_ident character must end them", RD, ri.lineno,
-              witness="foo\\x0cbar reads as one symbol", detail="EOF, ends_ident, whitespace")
+    # what ends an identifier: the loop (or predicate) of read_ident and its helpers tests membership in ends_ident and
+    # the reader's own whitespace predicate on the peeked character
+    scope = pyq.helpers_of(rd, ri)
+    has_ends = any(isinstance(c, ast.Compare) and isinstance(c.ops[0], (ast.In, ast.NotIn)) and dotted(c.comparators[0]) == "self.ends_ident" for fn_ in scope for c in ast.walk(fn_))
+    has_ws = any(isinstance(c, ast.Call) and dotted(c.func) == "isnormalizedspace" for fn_ in scope for c in ast.walk(fn_))
+    other_ws = [c for fn_ in scope for c in ast.walk(fn_) if isinstance(c, ast.Call) and isinstance(c.func, ast.Attribute) and c.func.attr in ("isspace", "strip", "split")]
+    ctx.decide("WS-CLASS", f"{RD}|Reader.read_ident|terminator", None if not (has_ends or has_ws or other_ws) else (has_ends and has_ws and not other_ws),
+               f"identifiers end at: ends_ident ({has_ends}), isnormalizedspace ({has_ws}), another whitespace test ({bool(other_ws)}); every whitespace character of the reader's class and every ends_ident character must end them",
+               RD, ri.lineno, witness="foo\\x0cbar reads as one symbol", detail="EOF, ends_ident, whitespace")
     init = rd.func("Reader.__init__")
     ctx.check(pyq.contains(init, lambda n: isinstance(n, ast.Assign) and norm(n) == "self.ends_ident = set(self.NON_IDENT)") is not None, "WS-CLASS", f"{RD}|Reader.__init__|ends_ident", "ends_ident is not initialised from NON_IDENT", RD, init.lineno, detail="set(self.NON_IDENT)")
     ni = None
